@@ -13,6 +13,10 @@ impl<'a> WriteableGraph for EngineWriteTxn<'a> {
             .map_err(|e| Error::Other(e.to_string()))
     }
 
+    fn external_id_in_use(&self, external_id: ExternalId) -> bool {
+        EngineWriteTxn::external_id_in_use(self, external_id)
+    }
+
     fn add_node_label(&mut self, node: InternalNodeId, label_id: LabelId) -> Result<()> {
         EngineWriteTxn::add_node_label(self, node, label_id)
             .map_err(|e| Error::Other(e.to_string()))
